@@ -234,6 +234,11 @@ def open_kind(kind: str, rng, ctx, overflow: bool = False) -> Opened:
                 typ = "Plain"
                 parts.append(Model(m["size"], [lay]))
                 files[f"m.hdd.{j}.hds"] = sfp
+            if nsec > 2 and rng.random() < 0.3:
+                # the image is larger than the range its storage occupies (padded plain file, capacity rounded up to whole
+                # clusters): the storage's sector range decides
+                nsec -= rng.randrange(1, min(nsec, 40))
+                parts[-1] = Model(nsec * SECTOR, parts[-1].layers)
             storages.append({"start": start, "end": start + nsec, "images": [{"guid": g, "type": typ, "file": f"m.hdd.{j}.hds"}]})
             start += nsec
         order = list(storages)
